@@ -14,7 +14,8 @@
 //!              unlocking script pushes the signatures in order (variant 1: each followed by its public key)
 //!     tx       wire bytes of the transaction to sign (the unlocking script of input idx is replaced)
 //!     keys     private keys joined by `,` (64 hex digits each, prefix `u` = uncompressed public key)
-//!     signers  `<key index>.<flag byte, decimal>` joined by `,`, in signature order (m of them)
+//!     signers  `<key index>.<flag byte, decimal>[.<nonce, 64 hex digits>]` joined by `,`, in signature order (m of them);
+//!              with a nonce the element is made by Transaction::sign_with_k (ephemeral key = nonce) instead of Transaction::sign
 //!     seps     `_` or positions joined by `,`: an OP_CODESEPARATOR is inserted before element <pos> of the
 //!              plain locking script (pos = number of elements: at the end)
 //!     variant  0: ... OP_CHECKSIG / OP_CHECKMULTISIG      1: ... OP_CHECKSIGVERIFY / OP_CHECKMULTISIGVERIFY OP_1
@@ -133,12 +134,20 @@ pub fn run(op: &str, args: &[String]) -> Option<String> {
             }
             let pks: Vec<PublicKey> = sks.iter().map(PublicKey::from_private_key).collect();
             // signers
-            let mut signers: Vec<(usize, SigHash)> = Vec::new();
+            let mut signers: Vec<(usize, SigHash, Option<PrivateKey>)> = Vec::new();
             for s in args[5].split(',') {
                 let f: Vec<&str> = s.split('.').collect();
-                if f.len() != 2 {
+                if f.len() != 2 && f.len() != 3 {
                     return Some("BADARG".into());
                 }
+                let nonce = if f.len() == 3 {
+                    match hex::decode(f[2]).ok().and_then(|b| PrivateKey::from_bytes(&b).ok()) {
+                        Some(k) => Some(k),
+                        None => return Some("BADARG".into()),
+                    }
+                } else {
+                    None
+                };
                 let (ki, fl) = match (f[0].parse::<usize>(), f[1].parse::<u8>()) {
                     (Ok(a), Ok(b)) => (a, b),
                     _ => return Some("BADARG".into()),
@@ -150,7 +159,7 @@ pub fn run(op: &str, args: &[String]) -> Option<String> {
                 if ki >= sks.len() {
                     return Some("BADARG".into());
                 }
-                signers.push((ki, flag));
+                signers.push((ki, flag, nonce));
             }
             let mut seps: Vec<usize> = Vec::new();
             if kind != "raw" && args[6] != "_" {
@@ -289,8 +298,12 @@ pub fn run(op: &str, args: &[String]) -> Option<String> {
             txin.set_unlocking_script(&Script::default());
             tx.set_input(idx, &txin);
             let mut sigs = Vec::new();
-            for (ki, flag) in &signers {
-                match tx.sign(&sks[*ki], *flag, idx, &subscript, value) {
+            for (ki, flag, nonce) in &signers {
+                let r = match nonce {
+                    Some(k) => tx.sign_with_k(&sks[*ki], k, *flag, idx, &subscript, value),
+                    None => tx.sign(&sks[*ki], *flag, idx, &subscript, value),
+                };
+                match r {
                     Ok(s) => sigs.push(s),
                     Err(_) => return Some("ERR".into()),
                 }
